@@ -151,9 +151,9 @@ def run_write(case, R):
     mode = case.get("mode", "auto")          # auto: 204 when everything is accepted, else 207 listing everything
     malformed = case.get("malformed", [])
     R.nt((any(s == 0 for s in statuses) and any(s != 0 for s in statuses)) or any(s > 0 or s in (-1, -12345) for s in statuses) or bool(malformed))
-    R.cls("write:ip", "reply:" + ("204" if all(s == 0 for s in statuses) and mode == "auto" else "207"))
+    R.cls("write:ip", "reply:" + ("204" if all(s == 0 for s in statuses) and mode == "auto" else str(case.get("http", [207])[0])))
     values = {key: (True if key in ((1, 9), (2, 10), (1, 3)) else 7 + i) for i, key in enumerate(ids)}
-    what = f"write {ids} statuses {statuses} mode {mode}"
+    what = f"write {ids} statuses {statuses} mode {mode}" + (f" status line {case['http']}" if case.get("http") else "")
 
     async def main(loop):
         w = IpWorld(loop)
@@ -168,7 +168,7 @@ def run_write(case, R):
                     chars = [{"aid": a, "iid": i, "status": s} for (a, i), s in zip(ids, statuses)]
                     for pos, m in malformed:
                         chars.insert(pos % (len(chars) + 1), copy.deepcopy(m))
-                    conn.send_http(207, "Multi-Status", json.dumps({"characteristics": chars}, separators=(",", ":")).encode())
+                    conn.send_http(*case.get("http", [207, "Multi-Status"]), json.dumps({"characteristics": chars}, separators=(",", ":")).encode())
                     return True
             return False
         w.acc.on_request = hook
@@ -186,7 +186,7 @@ def run_write(case, R):
                 res = None
             await vtime.settle(loop)
             if raised is not None:
-                if malformed or any(s != 0 for s in statuses):
+                if malformed or any(s != 0 for s in statuses) or case.get("http", [207])[0] >= 400:
                     R.cls("write-raised")
                     if not type(raised).__module__.startswith("aiohomekit"):
                         R.fail("C13.write-raises", f"{what}: {type(raised).__name__}: {raised}", exc=type(raised).__name__)
@@ -227,6 +227,9 @@ def run_write(case, R):
     vtime.run(main)
 
 
+HTTP_LINES = [[200, "OK"], [500, "Internal Server Error"], [400, "Bad Request"], [422, "Unprocessable Entity"], [503, "Service Unavailable"], [207, "Multi-Status"]]
+
+
 def enum_write(tier):
     idsets = [[(1, 9)], [(1, 9), (1, 11)], [(1, 9), (2, 10), (1, 11)]]
     for ids in idsets:
@@ -238,6 +241,10 @@ def enum_write(tier):
         for vec in itertools.product([0, -70402, 70410], repeat=len(ids)):
             yield {"ids": ids, "statuses": list(vec)}
             yield {"ids": ids, "statuses": list(vec), "mode": "207"}
+    # accessories also report rejected writes under other status lines (HAP: 400 for a single failed write; 200 and 5xx are seen in the field)
+    for http in HTTP_LINES:
+        for ids, vec in (([(1, 9)], [-70402]), ([(1, 9), (1, 11)], [0, -70410]), ([(1, 9), (2, 10), (1, 11)], [-70402, 0, 0]), ([(1, 9), (1, 11)], [0, 0])):
+            yield {"ids": ids, "statuses": vec, "mode": "207", "http": http}
     for m in MALFORMED:
         yield {"ids": [(1, 9), (1, 10)], "statuses": [0, -70410], "malformed": [[1, m]]}
         yield {"ids": [(1, 9)], "statuses": [0], "mode": "207", "malformed": [[0, m]]}
@@ -248,7 +255,8 @@ def write_cases(draw):
     n = draw(st.integers(1, 4))
     ids = draw(st.lists(st.sampled_from(sorted(WRITABLE)), min_size=n, max_size=n, unique=True))
     return {"ids": ids, "statuses": [draw(st.sampled_from([0, 0, 0] + CODES)) for _ in ids], "mode": draw(st.sampled_from(["auto", "auto", "207"])),
-            "malformed": draw(st.lists(st.tuples(st.integers(0, 4), st.sampled_from(MALFORMED)).map(list), max_size=2))}
+            "malformed": draw(st.lists(st.tuples(st.integers(0, 4), st.sampled_from(MALFORMED)).map(list), max_size=2)),
+            "http": draw(st.sampled_from([[207, "Multi-Status"]] * 4 + HTTP_LINES))}
 
 
 LAYERS = [
